@@ -176,6 +176,40 @@ func build(m *fixture.Module, cfg config) []layout.Pkg {
 	return ps
 }
 
+// processedPkgs: the packages the run is expected to process, derived from the configuration alone (not from hooks in
+// the code under test): the entrypoints themselves, plus - with All - every package of the module in their import
+// closure (nothing is ever cached here: the configurations start without a usable gengo.sum).
+func processedPkgs(cfg config, ps []layout.Pkg) map[string]bool {
+	byPath := map[string]layout.Pkg{}
+	for _, p := range ps {
+		byPath[p.Path(mod)] = p
+	}
+	out := map[string]bool{}
+	var visit func(path string)
+	visit = func(path string) {
+		p, ok := byPath[path]
+		if !ok || out[path] {
+			return
+		}
+		out[path] = true
+		if !cfg.All {
+			return
+		}
+		for _, ip := range append(append([]string{}, p.Imports...), p.ValueImports...) {
+			visit(ip)
+		}
+	}
+	for _, e := range cfg.Entries {
+		d := strings.TrimPrefix(e, "./")
+		if d == "." || d == "" {
+			visit(mod)
+		} else {
+			visit(mod + "/" + d)
+		}
+	}
+	return out
+}
+
 func executedPkgs(res specgen.Result) map[string]bool {
 	ex := map[string]bool{}
 	for _, e := range res.Events {
@@ -192,7 +226,7 @@ func judge(cfg config, ps []layout.Pkg, before, after map[string]fixture.Entry, 
 	add := func(oracle, key, format string, a ...any) {
 		fails = append(fails, [3]string{oracle, key, fmt.Sprintf(format, a...)})
 	}
-	ex := executedPkgs(run)
+	ex := processedPkgs(cfg, ps)
 	created, changed, deleted := fixture.Diff(before, after)
 	touched := map[string]string{}
 	for _, p := range created {
@@ -394,7 +428,7 @@ func (p *prop) runConfig(c core.Case, w *core.Worker, res *core.Result, cfg conf
 	res.Count("paths_deleted", int64(len(de)))
 	res.Count("packages_executed", int64(len(executedPkgs(run))))
 	if strace {
-		ex := executedPkgs(run)
+		ex := processedPkgs(cfg, ps)
 		dirs := map[string]bool{}
 		for _, pk := range ps {
 			if ex[pk.Path(mod)] {
